@@ -41,7 +41,7 @@ VALID = {
     'dtype_notation': ['fxp', 'Q'], 'max_error': [1e-6, 2.0 ** -20], 'n_word_max': [64, 48, 32],
 }
 
-FAULT_KINDS = ('F1', 'F2', 'F3', 'F4', 'F5', 'F6')
+FAULT_KINDS = ('F1', 'F2', 'F3', 'F4', 'F5', 'F6', 'F8')
 
 
 class Profile(dict):
@@ -57,17 +57,19 @@ def draw_profile(rng, prop, faults, tier='quick'):
         p_array=rng.choice([0.0, 0.3, 0.6, 0.9]),
         p_negfrac=rng.choice([0.0, 0.1, 0.3]),
         actors=rng.randint(1, 3),
-        faults=sorted(k for k in FAULT_KINDS if faults and rng.random() < 0.4),
+        faults=sorted(k for k in FAULT_KINDS if faults and rng.random() < 0.4 and (k != 'F8' or prop == 'C04')),
         fault_rate=rng.choice([0.05, 0.1, 0.2]),
         p_boundary=rng.choice([0.3, 0.6, 0.85]),
         p_register=rng.choice([0.0, 0.0, 0.15, 0.4]),
         p_cb=rng.choice([0.0, 0.3, 0.7]) if prop in ('C04',) or faults else 0.0,
         wide64=(prop == 'C02' and rng.random() < 0.08),
         groups=None,
+        # locality: how often a step acts on an object the previous steps just produced or wrote
+        p_hot=rng.choice([0.0, 0.15, 0.35, 0.6]),
     )
     if faults and not p['faults']:
-        p['faults'] = [rng.choice(FAULT_KINDS)]
-    if ('F3' in p['faults'] or 'F4' in p['faults']) and p['p_cb'] == 0.0:
+        p['faults'] = [rng.choice(FAULT_KINDS if prop == 'C04' else FAULT_KINDS[:-1])]
+    if ('F3' in p['faults'] or 'F4' in p['faults'] or 'F8' in p['faults']) and p['p_cb'] == 0.0:
         p['p_cb'] = 0.5
     # swarm: disable a random subset of op groups
     groups = ['derive_arith', 'derive_bits', 'derive_index', 'derive_reduce', 'derive_copy',
@@ -84,6 +86,22 @@ class Gen(object):
         self.p = profile
         self.w = world
         self.actor = 0
+        self.hot = []         # slots produced or written by the last two steps (most recent first)
+
+    def note(self, step):
+        """Told by the run loop what the step just executed touched (locality bias of pick)."""
+        touched = []
+        for s in [step] + list(step.nested):
+            touched += list(s.new)
+            if s.dest is not None:
+                touched.append(s.dest)
+            if s.ret_slot is not None:
+                touched.append(s.ret_slot)
+        seen = []
+        for i in touched + self.hot:
+            if i not in seen:
+                seen.append(i)
+        self.hot = seen[:3]
 
     # ------------------------------------------------------------------ formats and values
     def fmt(self):
@@ -320,6 +338,11 @@ class Gen(object):
         c = allc if pred is None else [i for i in allc if pred(self.w.slots[i].obj)]
         if not c:
             return None, None
+        if self.hot and self.p.get('p_hot') and self.rng.random() < self.p['p_hot']:
+            hc = [i for i in self.hot if i in c]
+            if hc:
+                i = hc[0] if self.rng.random() < 0.7 else self.rng.choice(hc)
+                return allc.index(i), i
         if prefer is not None:
             pc = [i for i in c if prefer(self.w.slots[i].obj)]
             if pc and self.rng.random() < 0.8:
@@ -338,10 +361,20 @@ class Gen(object):
 
     def index_for(self, shape, allow_bad=False):
         r = self.rng
-        if allow_bad and r.random() < 0.5:
+        if allow_bad and shape and r.random() < 0.5:
             return shape[0] + r.randint(0, 2)
+        if len(shape) == 0:
+            return r.choice([['el'], ['el'], []])       # what a 0-d value accepts: x[...] (a view) and x[()]
         if any(n == 0 for n in shape):
             return ['sl', None, None, None]
+        if r.random() < 0.12:
+            # an Ellipsis: with every axis indexed by an integer the result is a 0-d VIEW, not a copy
+            nd = len(shape) if r.random() < 0.7 else r.randint(0, len(shape) - 1)
+            ix = [r.randrange(-shape[ax], shape[ax]) for ax in range(nd)]
+            ix.insert(r.randint(0, len(ix)), ['el'])
+            if nd < len(shape) and ix[-1] == ['el'] and r.random() < 0.5 and len(shape) - nd >= 1:
+                ix.append(r.randrange(shape[-1]))       # x[..., j]
+            return ix if len(ix) > 1 else ix[0]
         ix = []
         nd = r.randint(1, len(shape))
         for ax in range(nd):
@@ -688,8 +721,12 @@ class Gen(object):
         return {'op': 'shift', 'slot': self.cands().index(i), 'dir': self.rng.choice('lr'),
                 'n': self.rng.randint(0, min(o.n_word + 2, 61 - min(o.n_word, 52)) if o.n_word < 60 else 2)}
 
+    @staticmethod
+    def is_nd(o):
+        return isinstance(o.val, np.ndarray)
+
     def g_getitem(self):
-        k, i = self.pick(self.is_arr)
+        k, i = self.pick(self.is_nd if self.rng.random() < 0.15 else self.is_arr)
         if k is None:
             return self.g_new(arr=True)
         sh = tuple(np.asarray(self.w.slots[i].obj.val).shape)
@@ -801,12 +838,14 @@ class Gen(object):
 
     def g_setitem(self, kind=None):
         r = self.rng
-        k, i = self.pick(lambda o: self.is_arr(o) and self.is_real(o))
+        zero_d = r.random() < 0.1
+        k, i = self.pick(lambda o: (self.is_nd(o) if zero_d else self.is_arr(o)) and self.is_real(o),
+                         prefer=(lambda o: np.ndim(o.val) == 0) if zero_d else None)
         if k is None:
             return self.g_new(arr=True)
         o = self.w.slots[i].obj
         sh = tuple(np.asarray(o.val).shape)
-        bad = 'F2' in self.p.faults and r.random() < self.p.fault_rate
+        bad = 'F2' in self.p.faults and r.random() < self.p.fault_rate and len(sh) > 0
         index = self.index_for(sh, allow_bad=bad)
         fmt = (bool(o.signed), o.n_word, o.n_frac)
         # value: scalar, or an array matching the region
@@ -828,6 +867,16 @@ class Gen(object):
 
     def g_setitem_chain(self):
         r = self.rng
+        if r.random() < 0.2:
+            # through a 0-d view: x[i, ...][()] = v, x[i, j, ...][...] = v, s[...][()] = v
+            k, i = self.pick(lambda o: self.is_nd(o) and self.is_real(o))
+            if k is not None:
+                o = self.w.slots[i].obj
+                sh = tuple(np.asarray(o.val).shape)
+                ii = [r.randrange(-n, n) for n in sh]
+                ii.insert(r.randint(0, len(ii)), ['el'])
+                return {'op': 'setitem_chain', 'slot': k, 'i': ii if len(ii) > 1 else ii[0], 'j': r.choice([[], ['el']]),
+                        'val': self.scalar_spec(self.value((bool(o.signed), o.n_word, o.n_frac), o.config.rounding))}
         k, i = self.pick(lambda o: np.asarray(o.val).ndim >= 2 and self.is_real(o))
         if k is None:
             return self.g_new(arr=True)
@@ -1021,6 +1070,13 @@ class Gen(object):
         if r.random() < 0.2:
             op['unregister'] = True       # F7: one-shot callback that removes itself when notified
             return op
+        if 'F8' in self.p.faults and self.p.prop == 'C04' and self.is_real(self.w.slots[i].obj) and \
+                (r.random() < 0.5 or not (set(self.p.faults) & {'F3', 'F4'})):
+            # F8: the handler writes to the object it is notified about, mid-write
+            o = self.w.slots[i].obj
+            op['selfwrite'] = self.val_like_obj(o, kind=r.choice(['hi+', 'lo-', 'inexact', 'exact', 'far', 'tie', None]))
+            op['via'] = r.choice(['call', 'set_val'])
+            return op
         if want_raise:
             op['raise'] = True
         else:
@@ -1140,13 +1196,13 @@ class Gen(object):
             add(2, self.g_unary, 'derive_arith')
             add(1, self.g_like)
             add(1, self.g_deepcopy)
-            add(1, self.g_big_store)
+            add(2, self.g_big_store)
             if p.p_register > 0:
                 add(int(10 * p.p_register) + 1, self.g_register_set, 'registers')
             if p.p_cb > 0:
                 add(3, self.g_cb_attach)
                 add(5, self.g_provoke)
-            if F & {'F3', 'F4'}:
+            if F & {'F3', 'F4', 'F8'}:
                 add(4, self.g_cb_arm)
             if 'F1' in F:
                 add(2, lambda: self.g_config_set(['overflow', 'rounding', 'shifting']))
